@@ -24,7 +24,8 @@ ASSUMPTIONS = ['written bytes are compared lazy-vs-eager only when every record 
                'replacement arrays have the table length and the type the eager table itself holds for that field (StringArray, EncodedRaggedArray, int ndarray, RaggedArray of qualities, flat strand array)',
                'a flat-alphabet column (strand) is observed as text: lazily it is an N x 1 ragged array, eagerly a flat array (see notes/C05.md)',
                't[i] on formats with a ragged str column: the model states the row the code intends; a TypeError from npstructures RaggedView2 under NumPy 2 is tolerated by model_ok and reported through spec_ok when only one mode fails']
-PARTIAL = ['C05_refines_partial / C05_file_level_partial: concatenate guarded by "every operand has the replaced-key set of the first and the cached keys of the first" (the code takes the keys of the first operand only); refuted without the guard by C05_concat_drops_refuted, C05_concat_keyerror_refuted; unguarded for the repaired concatenate in C05_refines_fixed',
+PARTIAL = ['modified write of a SAM row whose tags field is empty is excluded by the guard (join_ok): SAMBuffer.join_fields writes no tab before the empty field, the eager writer does (C05_sam_empty_tags_refuted); such rows are not canonically spelled in generated files, and replacement values for the tags column are never empty',
+           'C05_refines_partial / C05_file_level_partial: concatenate guarded by "every operand has the replaced-key set of the first and the cached keys of the first" (the code takes the keys of the first operand only); refuted without the guard by C05_concat_drops_refuted, C05_concat_keyerror_refuted; unguarded for the repaired concatenate in C05_refines_fixed',
            'all refinement theorems: guarded against concatenating a lazy table with a materialised one (C05_concat_mixed_refuted), writing a replaced column the writer cannot format (C05_write_replaced_refuted), parsing a SequenceID column of an empty buffer (C05_empty_sid_refuted)',
            'written bytes are proved equal under canonical spelling only (C05_noncanonical_write_differs shows the statement is false otherwise)']
 PER_FILE = 40
@@ -286,9 +287,8 @@ def _cat_clean(fmt, syms):
     kinds = {s.kind for s in syms}
     if len(kinds) > 1:
         return False
-    if syms[0].kind == 'eager' or fmt in ('fastq', 'fasta2'):
-        return True
-    return all(s.setk == syms[0].setk and syms[0].compk <= s.compk for s in syms)
+    # since c5ab8ed np.concatenate merges over the union of the replaced keys: any all-lazy operand list is fine
+    return True
 
 
 def _sym_apply(fmt, regs, op):
@@ -318,8 +318,8 @@ def _sym_apply(fmt, regs, op):
         if src[0].kind == 'eager' or fmt in ('fastq', 'fasta2'):
             new.kind = 'eager'
         else:
-            new.setk = set(src[0].setk)
-            new.compk = set(src[0].compk)
+            new.setk = set().union(*[x.setk for x in src])
+            new.compk = set(src[0].compk).intersection(*[x.compk for x in src]) - new.setk
         regs[r] = new
 
 
@@ -650,13 +650,6 @@ def _explain_steps(case, o):
             tsrc = [taint[j] for j in op[2] if taint[j]]
             if len(kinds) > 1:
                 why = 'C05-concat-lazy-with-materialised'
-            elif src[0].kind == 'lazy' and fmt in ('fastq', 'fasta2') and any(s.n == 0 for s in src):
-                why = 'C05-empty-lazy-table-sequence-id'
-            elif src[0].kind == 'lazy' and fmt not in ('fastq', 'fasta2'):
-                if any(not (src[0].setk <= s.setk and src[0].compk <= s.compk) for s in src):
-                    why = 'C05-concat-first-operand-keys'          # KeyError
-                elif any(not (s.setk <= src[0].setk) for s in src):
-                    taint[r] = 'C05-concat-first-operand-keys'     # silently dropped replaced column
             if 'e' in a and 'e' not in b:
                 taint[r] = taint[r] or why or (tsrc[0] if tsrc else None)
                 if a != b:
@@ -670,8 +663,6 @@ def _explain_steps(case, o):
         if diff and k != 'cat':
             if taint[r]:
                 why = taint[r]
-            elif k in ('get', 'tolist') and 'e' in a and 'v' in b and regs[r].n == 0 and regs[r].kind == 'lazy':
-                why = 'C05-empty-lazy-table-sequence-id'
             elif k == 'at' and ragged and (('e' in a) != ('e' in b)):
                 why = 'C05-int-index-ragged-column'
             elif k == 'write' and 'v' in a and 'e' in b and fmt == 'vcf' and case.get('header'):
